@@ -3,7 +3,6 @@ package tokenizers
 import (
 	"strings"
 
-	"github.com/pip-services3-gox/pip-services3-expressions-gox/io"
 	"github.com/pip-services3-gox/pip-services3-expressions-gox/tokenizers"
 	"github.com/pip-services3-gox/pip-services3-expressions-gox/tokenizers/generic"
 	"github.com/pip-services3-gox/pip-services3-expressions-gox/tokenizers/utilities"
@@ -13,7 +12,7 @@ type MustacheTokenizer struct {
 	*tokenizers.AbstractTokenizer
 	special      bool
 	specialState tokenizers.ITokenizerState
-	lastReader   io.IScanner
+	lastVersion  int  // the reader version this mode belongs to
 	tagStart     bool // the last token was an opening '{{' or '{{{'
 	comment      bool // the last two tokens were an opening and '!': the body of a comment follows
 }
@@ -64,9 +63,10 @@ func (c *MustacheTokenizer) ReadNextToken() *tokenizers.Token {
 	}
 
 	// Check for initial state: a new reader starts in text mode. (The last token type cannot tell: it is
-	// Unknown at the start, but also after an unknown character inside a tag.)
-	if c.Scanner != c.lastReader {
-		c.lastReader = c.Scanner
+	// Unknown at the start, but also after an unknown character inside a tag. Nor can the scanner: the same
+	// scanner may be reset and set again.)
+	if c.ReaderVersion != c.lastVersion {
+		c.lastVersion = c.ReaderVersion
 		c.special = true
 		c.tagStart = false
 		c.comment = false
